@@ -187,6 +187,33 @@ def main():
     m11 = re.search(r"FNV_PRIME\s*:\s*u64\s*=\s*0x([0-9a-fA-F]+)", engine)
     out.append("Definition gen_fnv_offset : Z := %d." % (int(m10.group(1), 16) if m10 else -1))
     out.append("Definition gen_fnv_prime : Z := %d." % (int(m11.group(1), 16) if m11 else -1))
+    # ---- recursion depth passed by every aggregate parser to parse_frame_at
+    calls = []
+    for fn in ("parse_array", "parse_map", "parse_set"):
+        b = fn_body(parser, fn) or ""
+        for mm in re.finditer(r"parse_frame_at\(([^;]*?),\s*([^,;()]*(?:\([^()]*\))?[^,;()]*)\)\?", b):
+            calls.append((fn, " ".join(mm.group(2).split())))
+    if not calls: warn.append("no recursive parse_frame_at call found")
+    out.append("(* (aggregate parser, depth argument of each recursive parse_frame_at call) *)")
+    out.append("Definition parser_depth_args : list (bytes * bytes) :=\n  [%s]." %
+               "; ".join('(bs "%s", bs "%s")' % c for c in calls))
+    # ---- Connection::flush: the bookkeeping of partial socket writes, as Gallina
+    connrs = read("src/network/connection.rs")
+    fl = fn_body(connrs, "flush") or ""
+    m12 = re.search(r"Ok\(n\)\s*=>\s*\{\s*self\.write_offset\s*(\+=|-=|=)\s*([^;]+);", fl)
+    upd = {"+=": "off + n", "=": "n", "-=": "off - n"}.get(m12.group(1), "0") if m12 and m12.group(2).strip() == "n" else "0"
+    if not m12: warn.append("flush: offset update not recognised")
+    out.append("(* flush: `Ok(n) => { self.write_offset %s %s; ...` *)" % ((m12.group(1), m12.group(2).strip()) if m12 else ("?", "?")))
+    out.append("Definition flush_offset_update (off n : nat) : nat := (%s)%%nat." % upd)
+    m13 = re.search(r"self\.stream\.write\(&self\.write_buffer\[([^\]]*)\]\)", fl)
+    start = m13.group(1).strip() if m13 else "?"
+    out.append("(* flush: `self.stream.write(&self.write_buffer[%s])` *)" % start)
+    out.append("Definition flush_writes_from (off : nat) : nat := %s." % ("off" if start == "self.write_offset.." else "0" if start == ".." else "S off"))
+    done = re.findall(r"if\s+self\.write_offset\s*(>=|==|>)\s*self\.write_buffer\.len\(\)\s*\{\s*(?://[^\n]*\n\s*)*self\.write_buffer\.clear\(\);\s*self\.write_offset\s*=\s*0;", fl)
+    ops = {">=": "Nat.leb len off", "==": "Nat.eqb off len", ">": "Nat.ltb len off"}
+    out.append("(* flush: `if self.write_offset OP self.write_buffer.len() { clear; offset = 0 }` sites: %s *)" % (", ".join(done) or "none"))
+    out.append("Definition flush_clears (off len : nat) : bool := %s." % (ops[done[-1]] if done else "false"))
+    out.append("Definition flush_clear_sites : nat := %d." % len(done))
     txt = ("(** GENERATED by tools/gen_tables.py from /repo's current sources - do not edit. *)\n"
            "From Ferrous Require Import Base.Bytes.\nOpen Scope Z_scope.\n\n" + "\n\n".join(out) + "\n")
     path = os.path.join(VERIF, "coq", "Generated.v")
